@@ -387,6 +387,39 @@ func explainMain(path string) {
 	}
 }
 
+// measureMain prints, for every constructed case of a file, the sizes of the tables and of the CFF INDEX
+// structures of the first written file (diagnostics: did the builder hit the sizes the configuration asks for?).
+func measureMain(path string) {
+	for _, c := range vio.ReadLines[Case](path) {
+		if c.Src != "built" {
+			continue
+		}
+		f := Build(c.Cfg, c.ID)
+		b, err := safeWrite(f)
+		if err != nil {
+			fmt.Println(c.ID, "write:", err)
+			continue
+		}
+		_, tables, err := splitTables(b)
+		if err != nil {
+			fmt.Println(c.ID, "split:", err)
+			continue
+		}
+		sizes := map[string]int{}
+		for k, v := range tables {
+			sizes[strings.TrimSpace(k)] = len(v)
+		}
+		line := map[string]any{"id": c.ID, "group": c.Cfg.Group, "kind": c.Cfg.Kind, "cffidx": c.Cfg.CffIdx, "idxlen": c.Cfg.IdxLen,
+			"big": c.Cfg.Big, "cinstr": c.Cfg.CInstr, "glyfsize": c.Cfg.GlyfSize, "tables": sizes}
+		if f.IsCFF() {
+			m := measureCFF(f)
+			line["index"] = map[string]int{"name": m.name, "topdict": m.topDict, "string": m.str, "gsubr": m.gsubr, "charstrings": m.charStrings}
+		}
+		out, _ := json.Marshal(line)
+		fmt.Println(string(out))
+	}
+}
+
 func main() {
 	if len(os.Args) < 2 {
 		vio.Fatal("usage: c01 run|fresh|corpus|explain ...")
@@ -400,6 +433,8 @@ func main() {
 		corpusMain(os.Args[2], os.Args[3], os.Args[4])
 	case "explain":
 		explainMain(os.Args[2])
+	case "measure":
+		measureMain(os.Args[2])
 	default:
 		vio.Fatal("unknown sub-command " + strings.Join(os.Args[1:], " "))
 	}
